@@ -15,6 +15,8 @@ dst=/verif/seeded/$id-$dm
 # round 3 (module-targeted): id is the agent number N, worktree /tmp/wv_N, stored as M<N>-<letter>;
 # the checks to run must be given explicitly
 if [ -n "$SEEDED_ROUND3" ]; then wt=/tmp/wv_$id; out=$wt/out; dst=/verif/seeded/M$id-$m; fi
+# round 4 (failure-handling, module-targeted): worktree /tmp/ww_N, stored as F<N>-<letter>
+if [ -n "$SEEDED_ROUND4" ]; then wt=/tmp/ww_$id; out=$wt/out; dst=/verif/seeded/F$id-$m; fi
 [ -f $out/mutant_$m.diff ] || { echo "no mutant $id $m"; exit 2; }
 cd $wt || exit 2
 git checkout -q -- src 2>/dev/null
